@@ -82,7 +82,14 @@ def gen(rng, tier):
             steps.append({"op": "delete", "ids": rng.sample(ids + ["gene_1", "exon_1"], rng.choice([1, 2]))})
         else:
             steps.append({"op": k})
-    return {"steps": steps, "queries": [gen_query(rng) for _ in range(rng.randint(10, 16))], "qseed": rng.getrandbits(32)}
+    memory = rng.random() < 0.2
+    for st in steps:
+        if st["op"] in ("update", "delete") and not memory and rng.random() < 0.25:
+            st["via"] = "other_process"  # the write is made by another process while this handle stays open
+    if memory:
+        steps = [st for st in steps if st["op"] not in ("reopen", "restart")]
+    return {"steps": steps, "queries": [gen_query(rng) for _ in range(rng.randint(10, 16))], "qseed": rng.getrandbits(32),
+            "memory": memory}
 
 
 def sort_key(col, f, pos):
@@ -249,6 +256,28 @@ def run(case):
 
         node = w.node()
         alive = False
+        DBN = ":memory:" if case.get("memory") else "a.db"
+        stale = [False]
+
+        def write_call(st, req):
+            """through the handle, or by another process while the handle (and whatever it caches) stays alive"""
+            if st.get("via") != "other_process":
+                if stale[0]:
+                    # this handle caches the id counters: before IT writes again after a foreign write it is reopened
+                    # (two live writers are outside every statement); its reads were checked while still open
+                    call(node, {"op": "drop", "h": "h"})
+                    call(node, {"op": "gc"})
+                    call(node, {"op": "open", "h": "h", "db": "a.db"})
+                    stale[0] = False
+                return call(node, req)
+            stale[0] = True
+            other = w.node()
+            call(other, {"op": "open", "h": "h", "db": "a.db"})
+            r_ = call(other, req)
+            other.close()
+            probes["write_by_other_process"] = 1
+            return r_
+
         for si, st in enumerate(case["steps"]):
             k = st["op"]
             if k == "reopen" and alive:
@@ -266,17 +295,19 @@ def run(case):
             try:
                 if k == "create":
                     model.import_gff3(st["feats"], strategy="create_unique")
-                    r = call(node, {"op": "create", "h": "h", "db": "a.db", "data": G.source_spec(None, st["feats"], form=st["form"]),
+                    r = call(node, {"op": "create", "h": "h", "db": DBN, "data": G.source_spec(None, st["feats"], form=st["form"]),
                                     "kw": {"merge_strategy": "create_unique"}})
+                    if case.get("memory"):
+                        probes["memory_database"] = 1
                 elif k == "update" and alive:
                     model.import_gff3(st["feats"], strategy=st["strategy"])
-                    r = call(node, {"op": "update", "h": "h", "data": G.source_spec(None, st["feats"], form=st["form"]),
-                                    "kw": {"merge_strategy": st["strategy"], "make_backup": False}})
+                    r = write_call(st, {"op": "update", "h": "h", "data": G.source_spec(None, st["feats"], form=st["form"]),
+                                        "kw": {"merge_strategy": st["strategy"], "make_backup": False}})
                     if st["strategy"] == "replace":
                         probes["replace_in_history"] = 1
                 elif k == "delete" and alive:
                     model.delete(st["ids"])
-                    r = call(node, {"op": "delete", "h": "h", "ids": st["ids"], "form": "strs", "kw": {"make_backup": False}})
+                    r = write_call(st, {"op": "delete", "h": "h", "ids": st["ids"], "form": "strs", "kw": {"make_backup": False}})
                     probes["delete_in_history"] = 1
                 else:
                     continue
